@@ -78,7 +78,7 @@ func genC15(g *Gen) *Plan {
 		base := pick(g, "/api/", "/api/v1/", "/api/v1/", "/api/rest/u7/user/", "/web/", "/")
 		uri := fmt.Sprintf("%sitem%d", base, i)
 		if g.p(0.5) {
-			uri += pick(g, "?b=2&a=1", "?q=x%20y", "?a=1", "?z")
+			uri += pick(g, "?b=2&a=1", "?q=x%20y", "?a=1", "?a=2", "?a=3&b=2", "?z")
 		}
 		method := pick(g, "GET", "GET", "GET", "HEAD", "POST", "PUT", "DELETE")
 		pool = append(pool, res{method, uri})
@@ -102,6 +102,11 @@ func genC15(g *Gen) *Plan {
 			s = append(s, r)
 		}
 		p.Scripts[key] = s
+		if method == "GET" && g.p(0.3) {
+			// the same URL is also asked for with HEAD (an entry of its own, whichever comes first)
+			pool = append(pool, res{"HEAD", uri})
+			p.Scripts["HEAD "+hostA+" "+uri] = s
+		}
 	}
 	n := g.n(10, 28)
 	reloadAt := -1
